@@ -155,6 +155,28 @@ def check_sat(assertions, timeout_ms, want_model=True):
     return r, m, dt
 
 
+def check_unsat_fresh(assertions, timeout_ms, seed=7):
+    """Second opinion for an undecided query: the same assertions translated into a fresh z3 context (new AST numbering, so
+    other orderings inside the arithmetic solver) with another random seed. Only 'unsat' is used."""
+    ctx = z3.Context()
+    s = z3.Solver(ctx=ctx)
+    s.set("timeout", int(timeout_ms))
+    s.set("random_seed", seed)
+    for a in assertions:
+        a = V.simp_bool(a)
+        if a is True:
+            continue
+        if a is False:
+            return "unsat", 0.0
+        s.add(V.to_z3(a).translate(ctx))
+    t = time.time()
+    try:
+        r = str(s.check())
+    except z3.Z3Exception:  # pragma: no cover
+        r = "unknown"
+    return r, time.time() - t
+
+
 def model_value(m, t, default=0):
     """Evaluate a term in a model -> Fraction / int / bool."""
     if not V.is_sym(t):
@@ -276,7 +298,7 @@ class Worker:
         self.res = Result()
 
     def discharge(self, name, assumptions, claim, guard=True, concretize=None, known_preds=None, sample=False,
-                  lemmas=(), witness_bounds=None, first_timeout_ms=None, abstract_nonlinear=False):
+                  lemmas=(), witness_bounds=None, first_timeout_ms=None, abstract_nonlinear=False, retry_fresh_ms=None):
         """Decide `assumptions /\\ guard => claim`.
 
         known_preds: {finding_id: z3 predicate}; predicates of findings listed in known_findings.json are excluded from
@@ -310,6 +332,11 @@ class Worker:
         if verdict is None:
             verdict, model, dt2 = check_sat([goal], first_timeout_ms or self.timeout_ms)
             dt += dt2
+        if verdict not in ("unsat", "sat") and retry_fresh_ms:
+            v2, dt2 = check_unsat_fresh([goal], retry_fresh_ms)
+            dt += dt2
+            if v2 == "unsat":
+                verdict = "unsat"
         if verdict not in ("unsat", "sat") and witness_bounds:
             # not decided quickly (non-linear): look for a witness inside small value bounds; a model is a counterexample
             # whatever the bounds, while 'unsat' under bounds decides nothing -> stays inconclusive
